@@ -9,7 +9,7 @@ from ..flow import Flow
 from ..model import AnalysisError, Cls, Func, Program, walk_own
 from ..report import Report
 from ..resolve import const_value, dotted, kwarg
-from ..util import calls_in, ext_name, returns_of, src
+from ..util import assigned_value, calls_in, ext_name, returns_of, src
 
 STORAGE_MOD = "windpyutils.parallel.storage"
 MUTATING = {"append", "extend", "insert", "pop", "remove", "clear", "sort", "reverse", "__setitem__", "__delitem__"}
@@ -237,9 +237,8 @@ class _Publish(Client):
             return ((tell, w, True if w else fl, pub, dup, cnt),)
         if kind == "store" and isinstance(node, ast.Subscript) and dotted(node.value) == (sn, sf.index) \
                 and src(node.slice) == self.gid:
-            st = getattr(node, "_parent", None)
-            val = st.value if isinstance(st, ast.Assign) else None
-            if const_value(val, 0) is None:
+            val = assigned_value(node)
+            if val is None or const_value(val, 0) is None:
                 return (state,)
             self._need_free("the publication of the index entry", node, dup)
             if not w:
